@@ -132,7 +132,10 @@ def load(release=False, repo=REPO, use_cache=True):
     if facts.get("n_fn_bodies", 0) < MIN_FN_BODIES:
         raise BuildError("only %d function bodies seen (floor %d): the build did not cover the crate"
                          % (facts.get("n_fn_bodies", 0), MIN_FN_BODIES))
+    from . import inline
+    inlined = inline.apply(facts)
     meta = {"tree_hash": th, "config": "release" if release else "dev", "cached": cached,
+            "helpers_expanded": inlined,
             "driver_s": round(driver_s, 2), "facts_file": path, "cfg": facts.get("cfg"),
             "n_fn_bodies": facts.get("n_fn_bodies")}
     return facts, meta
@@ -145,9 +148,13 @@ def _prune_cache(keep, max_files=12):
         for f in files[max_files:]:
             if f != keep:
                 os.remove(f)
-                lk = os.path.join(CACHE, "lock-" + os.path.basename(f)[6:-5])
-                if os.path.exists(lk):
-                    os.remove(lk)
+        kept = {os.path.basename(f)[6:-5] for f in files[:max_files]} | {os.path.basename(keep)[6:-5]}
+        for f in os.listdir(CACHE):
+            if f.startswith("lock-") and f[5:] not in kept:
+                try:
+                    os.remove(os.path.join(CACHE, f))
+                except OSError:
+                    pass
     except OSError:
         pass
 
